@@ -222,6 +222,11 @@ def project(trace, qdir, tables=None, dbto=b"postmaster@test.example", pfx=b""):
                 inode_of[(d, n)] = e["ino"]
             if d == "bounce" and is_send and not e.get("creat") and e.get("acc") == 0:
                 last_bounce_open = n
+        elif c == "read" and is_send and e.get("reg") and e.get("res") == 0:
+            # end of file of a recipient list: the daemon's pass over it is over
+            d, n = qpath(e.get("obj") or "", qdir)
+            if d in ("local", "remote"):
+                ev("passeof", e, n=T.n(n), c=0 if d == "local" else 1)
         elif c == "write" and e.get("reg") and e["res"] > 0 and is_send and (e.get("obj") or "").endswith("/verif-send.log"):
             # the activity record: one `log` event per completed line (qmail-log(5))
             logbuf.setdefault(pid, bytearray()).extend(bytes.fromhex(e["hex"])[: e["res"]])
